@@ -1149,7 +1149,8 @@ fn mode_run(args: &[String]) -> i32 {
                 break;
             }
             let sample = i >= n_sys && i < n_sys + 3;
-            let timeout_first = if i >= SCENARIO_BASE { 300 } else { 60 };
+            // generous: a verdict never depends on wall-clock time, and the machine may be busy with other work
+            let timeout_first = if i >= SCENARIO_BASE { 600 } else { 150 };
             let mut res = spawn_worker(verif_seed, &tier, i, n_sys, sample, timeout_first);
             if res.is_err() {
                 res = spawn_worker(verif_seed, &tier, i, n_sys, sample, 3 * timeout_first);
